@@ -47,7 +47,7 @@ func (p *propC07) Prepare(seed uint64, tier string) int {
 	p.count = 40000
 	if isThorough(tier) {
 		max = 400000
-		p.count = 1500000
+		p.count = 300000
 	}
 	p.corpus = corpusFrames(max, false)
 	p.mut = &propC01{}
